@@ -297,6 +297,33 @@ pub fn dispatch(t: &[Tok]) -> String {
             }
         }),
         "frombytes" => for_variant!(s(t, 1), T, { res_hash(L!(T::try_from(b(t, 2)))) }),
+        // fromstrm V mode x: from_str_with with an explicit / automatic prefix mode on a &str
+        "fromstrm" => for_variant!(s(t, 1), T, {
+            match std::str::from_utf8(b(t, 3)) {
+                Ok(st) => res_hash(L!(T::from_str_with(st, prefix_mode(s(t, 2))))),
+                Err(_) => panic!("HARNESS: fromstrm needs UTF-8"),
+            }
+        }),
+        // fmto V bin prefix off buf: store_into_str_bytes into a sub-slice starting `off` bytes into a 16-byte aligned arena
+        "fmto" => for_variant!(s(t, 1), T, {
+            match L!(T::try_from(b(t, 2))) {
+                Err(e) => format!("hasherr {:?}", e),
+                Ok(h) => {
+                    let p = prefix_mode(s(t, 3)).expect("HARNESS: fmto needs a prefix");
+                    let off = n(t, 4) as usize;
+                    let src = b(t, 5);
+                    let mut arena: Vec<u128> = vec![0u128; (off + src.len()) / 16 + 2];
+                    let bytes: &mut [u8] = unsafe { std::slice::from_raw_parts_mut(arena.as_mut_ptr() as *mut u8, arena.len() * 16) };
+                    bytes[off..off + src.len()].copy_from_slice(src);
+                    let r = L!(h.store_into_str_bytes(&mut bytes[off..off + src.len()], p));
+                    let after = bytes[off..off + src.len()].to_vec();
+                    match r {
+                        Ok(k) => format!("ok {} {}", k, hex(&after)),
+                        Err(e) => format!("err {:?} {}", e, hex(&after)),
+                    }
+                }
+            }
+        }),
         "fromarray" => for_variant!(s(t, 1), T, {
             // TryFrom<&[u8; SIZE]>
             const SZ: usize = <T as FuzzyHashType>::SIZE_IN_BYTES;
@@ -674,6 +701,29 @@ pub fn dispatch(t: &[Tok]) -> String {
                         let d: Vec<u8> = (0..k).map(|_| lcg_next(&mut st)).collect();
                         L!(stack.last_mut().unwrap().update(&d));
                         i += 3;
+                    }
+                    "usplit" => {
+                        // n pseudo-random bytes (seed, n) fed as two updates: [0..a) and [a..n)
+                        let mut st = n(t, i + 1) as u32;
+                        let (k, a) = (n(t, i + 2) as usize, n(t, i + 3) as usize);
+                        let d: Vec<u8> = (0..k).map(|_| lcg_next(&mut st)).collect();
+                        let a = a.min(k);
+                        L!(stack.last_mut().unwrap().update(&d[..a]));
+                        L!(stack.last_mut().unwrap().update(&d[a..]));
+                        i += 4;
+                    }
+                    "urun" => {
+                        // n bytes alternating b1, b2 (b1 == b2: a constant run), in pieces of k bytes (k = 0: one slice)
+                        let (b1, b2, k, piece) = (n(t, i + 1) as u8, n(t, i + 2) as u8, n(t, i + 3) as usize, n(t, i + 4) as usize);
+                        let d: Vec<u8> = (0..k).map(|j| if j % 2 == 0 { b1 } else { b2 }).collect();
+                        if piece == 0 {
+                            L!(stack.last_mut().unwrap().update(&d));
+                        } else {
+                            for c in d.chunks(piece) {
+                                L!(stack.last_mut().unwrap().update(c));
+                            }
+                        }
+                        i += 5;
                     }
                     "uzero" => {
                         // update with ONE slice of n zero bytes (n may exceed 4 GiB)
